@@ -199,4 +199,44 @@ theorem sorted_dropWhile (now : Nat) (l : List (Scheduled P)) (hs : Sorted l) :
     Sorted (l.dropWhile (·.deliverAt ≤ now)) :=
   List.Pairwise.sublist (List.dropWhile_sublist _) hs
 
+/-! ### additions: logged ids, fresh ids -/
+
+namespace Chain
+variable {P : Type}
+
+/-- Every id in the consulted log is the id of a rule of the chain. -/
+theorem evalLog_ids (rs : List (Rule P)) (p : P) :
+    ∀ e ∈ (evalLog rs p).1, ∃ r ∈ rs, r.id = e.1 := by
+  induction rs with
+  | nil => simp [evalLog]
+  | cons r rs ih =>
+    intro e he
+    simp only [evalLog] at he
+    cases h : r.f p with
+    | pass =>
+      simp only [h, List.mem_cons] at he
+      rcases he with rfl | he
+      · exact ⟨r, List.mem_cons_self .., rfl⟩
+      · obtain ⟨r2, hr2, h2⟩ := ih e he
+        exact ⟨r2, List.mem_cons_of_mem _ hr2, h2⟩
+    | drop =>
+      simp only [h, List.mem_singleton] at he
+      subst he
+      exact ⟨r, List.mem_cons_self .., rfl⟩
+    | deliver d =>
+      simp only [h, List.mem_singleton] at he
+      subst he
+      exact ⟨r, List.mem_cons_self .., rfl⟩
+
+/-- The id handed out by `install` is below the new counter. -/
+theorem install_id_lt_nextId (c : Chain P) (f : P → Verdict) : (c.install f).2 < (c.install f).1.nextId := by
+  simp [install]
+
+/-- The counter never decreases. -/
+theorem install_nextId (c : Chain P) (f : P → Verdict) : (c.install f).1.nextId = c.nextId + 1 := rfl
+
+theorem uninstall_nextId (c : Chain P) (id : Nat) : (c.uninstall id).nextId = c.nextId := rfl
+
+end Chain
+
 end TV
